@@ -71,17 +71,20 @@ def configs(tier, seed):
     # hand-picked programs: a scope value repeated along one path, registers added after the inner block closed
     A = lambda i: {"add": i}
     S = lambda kv, *body: {"scope": list(kv), "body": list(body)}
-    for prog in ([S(("i", 0), S(("c", "ch"), S(("i", 0), A(0)), A(1)), A(2))],
-                 [S(("c", "a"), S(("c", "b"), S(("c", "a"), A(0)), A(1))), A(2)],
-                 [S(("i", 1), S(("i", 1), A(0)), A(1), S(("i", 1), S(("i", 0), A(2))))],
-                 [S(("i", 0), A(0)), S(("c", "0"), A(1)), A(2)],
-                 [dict(S(("c", "blk"), A(1)), before=[A(0)]), A(2)],
-                 [S(("c", "x"), dict(S(("i", 1), A(1)), before=[A(0)])), A(2)]):
+    NAMES = {3: ["ctrl", "ctrl", "r2"], 6: ["chan", "r1", "r2"], 7: ["r0", "chan", "r2"]}
+    progs = ([S(("i", 0), S(("c", "ch"), S(("i", 0), A(0)), A(1)), A(2))],
+             [S(("c", "a"), S(("c", "b"), S(("c", "a"), A(0)), A(1))), A(2)],
+             [S(("i", 1), S(("i", 1), A(0)), A(1), S(("i", 1), S(("i", 0), A(2))))],
+             [S(("i", 0), A(0)), S(("c", "0"), A(1)), A(2)],                      # (0, 'ctrl') next to ('0', 'ctrl'): legal
+             [dict(S(("c", "blk"), A(1)), before=[A(0)]), A(2)],
+             [S(("c", "x"), dict(S(("i", 1), A(1)), before=[A(0)])), A(2)],
+             [A(0), S(("c", "chan"), S(("i", 0), A(1))), A(2)],                   # 'chan' next to chan/0/r1: a collision
+             [S(("c", "chan"), S(("i", 0), S(("c", "q"), A(0)))), A(1), A(2)])    # ... three levels apart, other order
+    for pi, prog in enumerate(progs):
         for aw, dw, g in ((4, 8, 8), (5, 32, 8)):
             out.append({"aw": aw, "dw": dw, "g": g, "late": False, "prog": prog,
-                        "adds": [{"w": w, "off": False, "scope": 0, "name": "ctrl" if prog[0]["body"] == [A(0)] and not prog[0].get("before") and i < 2 else f"r{i}",
-                                  "bad_first": None}
-                                 for i, w in enumerate((dw, 1, 2 * dw + 1))]})
+                        "adds": [{"w": w, "off": False, "scope": 0, "name": NAMES.get(pi, [f"r{i}" for i in range(3)])[i],
+                                  "bad_first": None} for i, w in enumerate((dw, 1, 2 * dw + 1))]})
     return out
 
 
